@@ -56,7 +56,7 @@ PROPS = {
                 rule="cases as for C01; Request.PathParameters() is read inside the invoked handler. Non-trivial = "
                      "judged route outcomes that bind at least one parameter, counted by the trace spec."),
     "C14": dict(modes={"quick": [("path", "quick"), ("roots", "quick")], "thorough": [("path", "thorough"), ("roots", "thorough"), ("headers", "quick")]},
-                plan=dict(perms=0, slash=True, entries=["D"]),
+                plan=dict(perms=0, slash=True, entries=["D"], late=True),
                 random={"quick": [("slash", 220, 20)], "thorough": [("slash", 4000, 30), ("headers", 1000, 30)]},
                 counter="slashTwins",
                 rule="every request path p without trailing slash is sent as p and as p/ to the same real container; "
